@@ -103,7 +103,7 @@ def configs(tier):
 
 
 def tasks(tier):
-    ts = [("config", k) for k in range(len(configs(tier)))] + [("en-width",)]
+    ts = [("config", k) for k in range(len(configs(tier)))] + [("en-width",), ("init-frame",)]
     ts += [("rtlil", k) for k in range(len(configs(tier)))]
     ts += [("behaviour", k) for k in range(len(configs(tier)))]
     # the storage class itself (the contracts the configurations above rely on)
@@ -559,6 +559,64 @@ def check_behaviour(cfg, name, broken=False):
     return runner.from_exploration(name, x)
 
 
+def check_init_frame():
+    """Simulation never writes into the design: after rows have been written through a write port and through testbench row
+    access on the real Simulator, the memory's declared initial contents (`memory.init`, what RTLIL $meminit_v2 carries) are
+    unchanged, `Simulator.reset()` restores them, and a second Simulator on the same design starts from them."""
+    from amaranth.hdl import Module, Shape
+    from amaranth.lib.memory import Memory
+    from amaranth.sim import Simulator
+    from amaranth.back import rtlil
+    obs = []
+    for (w, sgn) in ((4, False), (3, True)):
+        init = [1, 2, -3 if sgn else 3, 0, 2]
+        mem = Memory(shape=Shape(w, sgn), depth=5, init=init)
+        wp = mem.write_port()
+        rp = mem.read_port(domain="comb")
+        m = Module()
+        m.submodules.mem = mem
+        declared = [int(x) for x in mem.init]
+        ports = [wp.addr, wp.data, wp.en, rp.addr, rp.data]
+        text0 = rtlil.convert(m, ports=ports, emit_src=False)
+        sim = Simulator(m)
+        sim.add_clock(1e-6)
+        seen = {}
+
+        async def tb(ctx):
+            seen["start"] = [ctx.get(mem.data[i]) for i in range(5)]
+            ctx.set(wp.addr, 1)
+            ctx.set(wp.data, 7 if not sgn else -1)
+            ctx.set(wp.en, 1)
+            await ctx.tick()
+            ctx.set(wp.en, 0)
+            ctx.set(mem.data[3], 5 if not sgn else 2)
+            await ctx.tick()
+            seen["end"] = [ctx.get(mem.data[i]) for i in range(5)]
+        sim.add_testbench(tb)
+        sim.run()
+        after = [int(x) for x in mem.init]
+        nm = f"init-frame[{w},{sgn}]"
+
+        def ob(label, ok, fi):
+            obs.append({"name": f"{nm}::{label}", "kind": "post", "status": "proved" if ok else "refuted", "backend": "closed", "time_s": 0.0,
+                        **({} if ok else {"failing_input": {**fi, "how": "Memory with a write port, written through the port and through ctx.set(mem.data[i]) on the real Simulator"}})})
+        ob("rows-were-written", seen["end"] != seen["start"] and seen["start"] == declared, {"start": seen.get("start"), "end": seen.get("end"), "declared": declared})
+        ob("declared-initial-contents-unchanged", after == declared, {"declared": declared, "memory.init after simulation": after})
+        m2 = Module()
+        text1 = rtlil.convert(m, ports=ports, emit_src=False)
+        ob("rtlil-initial-contents-unchanged", text1 == text0, {"what": "rtlil.convert of the same design differs after simulating it"})
+        sim.reset()
+        got = {}
+
+        async def tb2(ctx):
+            got["rows"] = [ctx.get(mem.data[i]) for i in range(5)]
+        sim2 = Simulator(m)
+        sim2.add_testbench(tb2)
+        sim2.run()
+        ob("second-simulator-starts-from-declared-contents", got.get("rows") == declared, {"rows": got.get("rows"), "declared": declared})
+    return {"task": "init-frame", "paths": 0, "solver_s": 0.0, "obligations": obs}
+
+
 def run_task(task):
     if task[0] == "rtlil":
         cfg = configs("thorough")[task[1]]
@@ -571,6 +629,8 @@ def run_task(task):
         return check_config(cfg, f"mem{task[1]}{cfg!r}".replace(" ", ""))
     if task[0] == "en-width":
         return check_en_width()
+    if task[0] == "init-frame":
+        return check_init_frame()
     if task[0] == "behaviour":
         cfg = configs("thorough")[task[1]]
         return check_behaviour(cfg, f"mem{task[1]}{cfg!r}".replace(" ", ""))
